@@ -542,4 +542,52 @@ theorem findEdge_go_spec (H : String → UInt64) {tips₁ tips₂ b : List Strin
         · exact ih'
         · exact ih'
 
+/-- `FindEdge` of a spec record among the spec records of another tree on the same taxa -/
+theorem findEdge_spec_level (H : String → UInt64) (t₂ : T) {tips₁ b : List String} (tip : Bool)
+    (n1 : tips₁.Nodup) (n2 : t₂.tipNames.Nodup) (p : tips₁.Perm t₂.tipNames) (hb : b.Sublist tips₁) (hpos : 0 < b.length) :
+    findEdge (specIdx H tips₁ b) tip (t₂.splits.map fun s => (specIdx H t₂.tipNames s.below, s.tip)) =
+      some (specFindEdge tips₁ b tip t₂.splits) := by
+  unfold findEdge
+  rw [spec_bits_not_all_zero H hb hpos]
+  simp only [Bool.false_eq_true, if_false]
+  exact findEdge_go_spec H tip n1 n2 p hb t₂.splits
+    fun s hs => ⟨below_sublist t₂ s hs, (below_proper t₂ s hs).1⟩
+
+theorem commonEdgesLoop_spec (H : String → UInt64) (t₂ : T) {tips₁ : List String} (tipEdges : Bool)
+    (n1 : tips₁.Nodup) (n2 : t₂.tipNames.Nodup) (p : tips₁.Perm t₂.tipNames)
+    (l : List SplitE) (hl : ∀ s ∈ l, s.below.Sublist tips₁ ∧ 0 < s.below.length) (tree1 common : Nat) :
+    commonEdgesLoop tipEdges (t₂.splits.map fun s => (specIdx H t₂.tipNames s.below, s.tip))
+        (l.map fun s => (specIdx H tips₁ s.below, s.tip)) (tree1 : Int) (common : Int) =
+      some ((((tree1 + (l.filter fun s => tipEdges || !s.tip).length : Nat) : Int) -
+             ((common + ((l.filter fun s => tipEdges || !s.tip).filter fun s => specFindEdge tips₁ s.below s.tip t₂.splits).length : Nat) : Int)),
+            ((common + ((l.filter fun s => tipEdges || !s.tip).filter fun s => specFindEdge tips₁ s.below s.tip t₂.splits).length : Nat) : Int)) := by
+  induction l generalizing tree1 common with
+  | nil => simp [commonEdgesLoop]
+  | cons s r ih =>
+    have ih' := ih fun s' hs' => hl s' (List.mem_cons_of_mem _ hs')
+    obtain ⟨hs, hpos⟩ := hl s (List.mem_cons_self ..)
+    simp only [List.map_cons, commonEdgesLoop]
+    cases hc : (tipEdges || !s.tip) with
+    | false =>
+      simp only [Bool.false_eq_true, if_false, List.filter_cons, hc]
+      exact ih' tree1 common
+    | true =>
+      simp only [if_true, findEdge_spec_level H t₂ s.tip n1 n2 p hs hpos, List.filter_cons, hc]
+      cases hf : specFindEdge tips₁ s.below s.tip t₂.splits with
+      | false =>
+        simp only [Bool.false_eq_true, if_false]
+        have := ih' (tree1 + 1) common
+        simp only [Int.natCast_add, Int.natCast_one] at this ⊢
+        rw [this]
+        simp only [List.length_cons, Int.natCast_add, Int.natCast_one]
+        congr 2
+        omega
+      | true =>
+        simp only [if_true]
+        have := ih' (tree1 + 1) (common + 1)
+        simp only [Int.natCast_add, Int.natCast_one] at this ⊢
+        rw [this]
+        simp only [List.length_cons, Int.natCast_add, Int.natCast_one]
+        congr 2 <;> omega
+
 end Gotree.C04
